@@ -541,3 +541,165 @@ Proof.
   unfold do_create. destruct (lock (expire st)) eqn:E; intros H; inversion H; subst.
   simpl. repeat split; auto. eexists. split; [apply in_or_app; right; left; reflexivity|]. auto.
 Qed.
+
+(* ------------------------------------------------------------------ idle expiry (conf.go:817-832) *)
+Lemma filter_all {A} (f : A -> bool) l : (forall x, In x l -> f x = true) -> filter f l = l.
+Proof.
+  induction l as [|a l IH]; simpl; intros H; auto.
+  rewrite (H a) by auto. f_equal. apply IH. intros; apply H; auto.
+Qed.
+Lemma filter_none {A} (f : A -> bool) l : (forall x, In x l -> f x = false) -> filter f l = [].
+Proof.
+  induction l as [|a l IH]; simpl; intros H; auto.
+  rewrite (H a) by auto. apply IH. intros; apply H; auto.
+Qed.
+
+(* sessions that are still alive are not touched by expiry, and nothing else is either *)
+Lemma expire_alive st : (forall s, In s (sessions st) -> alive s = true) -> expire st = st.
+Proof.
+  intros H. unfold expire. rewrite (filter_all alive) by exact H.
+  rewrite (filter_none (fun s => negb (alive s))) by (intros x Hx; rewrite (H x Hx); reflexivity).
+  destruct st as [r su f ss lk n vm vf]; simpl. destruct lk; reflexivity.
+Qed.
+(* expiry never touches the datastores *)
+Lemma expire_persisted st : persisted (expire st) = persisted st.
+Proof. reflexivity. Qed.
+(* in a reachable state an idle session disappears with its lock at the next API call ... *)
+Lemma expire_idle st s : Inv st -> In s (sessions st) -> alive s = false ->
+  sessions (expire st) = [] /\ lock (expire st) = None.
+Proof.
+  intros [[Hs _]|[s1 [Hs [Hl _]]]] Hin Ha; rewrite Hs in Hin; simpl in Hin; [contradiction|].
+  destruct Hin as [->|[]]. unfold expire. rewrite Hs, Hl. simpl. rewrite Ha. simpl.
+  rewrite N.eqb_refl. auto.
+Qed.
+(* ... so the next Create is granted, and every call that names the expired session is refused *)
+Lemma expired_create st s : Inv st -> In s (sessions st) -> alive s = false ->
+  snd (do_create st) = RId (next_id st + 1)%N.
+Proof.
+  intros HI Hin Ha. destruct (expire_idle _ _ HI Hin Ha) as [_ Hl].
+  unfold do_create. cbv zeta. rewrite Hl. reflexivity.
+Qed.
+Lemma expired_refused var reg g st s : Inv st -> In s (sessions st) -> alive s = false ->
+  forall id,
+  (forall p v vf, do_set var reg st id p v vf = (expire st, RNoSession)) /\
+  (forall f, do_commit var reg g st id f = (expire st, RNoSession, [])) /\
+  do_close st id = (expire st, RNoSession) /\ do_delete st id = (expire st, RNoSession).
+Proof.
+  intros HI Hin Ha id. destruct (expire_idle _ _ HI Hin Ha) as [Hs _].
+  unfold do_set, do_commit, do_close, do_delete. cbv zeta. rewrite Hs. simpl. auto.
+Qed.
+(* every call that finds the session refreshes its activity stamp *)
+Lemma set_touches var reg st id p v vf st' r :
+  do_set var reg st id p v vf = (st', r) -> r <> RNoSession ->
+  forall s, In s (sessions st') -> s_id s = id -> s_idle s = 0%N.
+Proof.
+  unfold do_set. cbv zeta.
+  destruct (find_session (sessions (expire st)) id) as [s0|] eqn:Ef; [|intros H; inversion H; congruence].
+  assert (P : forall s' l, s_idle s' = 0%N -> s_id s' = id -> forall s, In s (put_session l s') -> s_id s = id -> s_idle s = 0%N).
+  { intros s' l Hz Hid s Hin Hs. unfold put_session in Hin. apply in_map_iff in Hin as [a [Ea _]].
+    destruct (N.eqb (s_id a) (s_id s')) eqn:E; [subst; auto|].
+    subst a. apply N.eqb_neq in E. congruence. }
+  assert (Hid0 : s_id s0 = id).
+  { unfold find_session in Ef. apply find_some in Ef as [_ E]. apply N.eqb_eq in E. exact E. }
+  destruct (get_handler reg p) as [hi|]; [|intros H _; inversion H; subst; simpl; apply P; auto].
+  destruct vf; [intros H _; inversion H; subst; simpl; apply P; auto|].
+  destruct (set_store var (s_cand (touch s0)) (hget reg hi) p v) as [c ok].
+  intros H _; inversion H; subst; simpl. apply P; auto.
+Qed.
+
+(* ------------------------------------------------------------------ the candidate is exactly the replay of its changes *)
+Definition apply_change (reg : registry) (cand : store) (c : change) : store :=
+  match get_handler reg (c_path c) with
+  | Some hi => fst (set_store Repaired cand (hget reg hi) (c_path c) (c_new c))
+  | None => cand
+  end.
+Definition replay (reg : registry) (run : store) (chs : list change) : store :=
+  fold_left (apply_change reg) chs run.
+
+Definition Inv2 (reg : registry) (st : state) : Prop :=
+  forall s, In s (sessions st) -> s_cand s = replay reg (running st) (s_changes s).
+
+Lemma in_put_session l s' s : In s (put_session l s') -> s = s' \/ In s l.
+Proof.
+  unfold put_session. intros H. apply in_map_iff in H as [a [E Ha]].
+  destruct (N.eqb (s_id a) (s_id s')); subst; auto.
+Qed.
+Lemma in_remove_session l id s : In s (remove_session l id) -> In s l.
+Proof. unfold remove_session. intros H. apply filter_In in H. tauto. Qed.
+
+Lemma inv2_expire reg st : Inv2 reg st -> Inv2 reg (expire st).
+Proof.
+  intros H s Hin. unfold expire in Hin. simpl in Hin. apply filter_In in Hin as [Hin _]. apply H; auto.
+Qed.
+Lemma inv2_touch_state reg st id : Inv2 reg st -> Inv2 reg (touch_state st id).
+Proof.
+  intros H. unfold touch_state. destruct (find_session (sessions st) id) as [s0|] eqn:Ef; auto.
+  intros s Hin. simpl in Hin. apply in_put_session in Hin as [->|Hin]; [|apply H; auto].
+  simpl. apply H. unfold find_session in Ef. apply find_some in Ef. tauto.
+Qed.
+
+Lemma inv2_step reg g st o st' r evs :
+  Inv st -> Inv2 reg st -> step Repaired reg g st o = (st', r, evs) -> Inv2 reg st'.
+Proof.
+  intros HI H2 H. apply inv_expire in HI as HIe. apply (inv2_expire reg) in H2 as H2e.
+  destruct o; simpl in H.
+  - (* create *)
+    unfold do_create in H. cbv zeta in H. destruct (lock (expire st)); inversion H; subst; auto.
+    intros s Hin. simpl in Hin. apply in_app_or in Hin as [Hin|[<-|[]]]; [apply H2e; auto|reflexivity].
+  - (* close *)
+    unfold do_close in H. cbv zeta in H. destruct (has_session _ _); inversion H; subst; auto.
+    intros s Hin. simpl in Hin. apply in_remove_session in Hin. apply H2e; auto.
+  - (* delete *)
+    unfold do_delete in H. cbv zeta in H.
+    destruct (find_session (sessions (expire st)) id) as [s0|] eqn:Ef; inversion H; subst; auto.
+    pose proof (inv2_touch_state reg _ id H2e) as T. unfold touch_state in T. rewrite Ef in T. exact T.
+  - (* set *)
+    unfold do_set in H. cbv zeta in H.
+    destruct (find_session (sessions (expire st)) id) as [s0|] eqn:Ef; [|inversion H; subst; auto].
+    pose proof (inv2_touch_state reg _ id H2e) as T. unfold touch_state in T. rewrite Ef in T.
+    destruct (inv_single _ _ _ HIe Ef) as [Hs [Hl [Hid [Ha Hg]]]].
+    assert (Hc0 : s_cand s0 = replay reg (running (expire st)) (s_changes s0)).
+    { apply H2e. rewrite Hs. left; reflexivity. }
+    destruct (get_handler reg p) as [hi|] eqn:Eh; [|inversion H; subst; exact T].
+    destruct vfail; [inversion H; subst; exact T|].
+    destruct (set_store Repaired (s_cand (touch s0)) (hget reg hi) p v) as [cand' ok] eqn:Est.
+    inversion H; subst; clear H. intros s Hin. simpl in Hin. simpl. rewrite Ha.
+    apply in_put_session in Hin as [->|Hin]; [|apply H2e; auto]. simpl.
+    destruct ok.
+    + change (running (expire st)) with (running st) in Hc0.
+      unfold replay in *. rewrite fold_left_app. simpl. rewrite <- Hc0.
+      unfold apply_change. simpl. rewrite Eh. simpl in Est. rewrite Est. reflexivity.
+    + apply set_store_failed_atomic in Est. subst cand'. exact Hc0.
+  - (* tick *)
+    inversion H; subst. intros s Hin. unfold do_tick in Hin. simpl in Hin.
+    apply in_map_iff in Hin as [a [<- Ha]]. simpl. apply H2; auto.
+  - (* rollback *)
+    unfold do_rollback in H. cbv zeta in H. destruct (_ || _); inversion H; subst; auto.
+  - (* commit *)
+    apply commit_repaired_cases in H as [[_ [E _]]|[_ [[s [Ef [_ [_ [_ [_ [Hs _]]]]]]] _]]].
+    + subst. apply inv2_touch_state; auto.
+    + destruct (inv_single _ _ _ HIe Ef) as [Hs1 [_ [Hid _]]].
+      intros s' Hin. rewrite Hs, Hs1 in Hin. subst id. rewrite remove_single in Hin. contradiction.
+Qed.
+
+Lemma inv2_run reg g ops : forall st, Inv st -> Inv2 reg st ->
+  Inv2 reg (run Repaired reg g st ops).
+Proof.
+  induction ops as [|o ops IH]; simpl; intros st HI H2; auto.
+  destruct (step Repaired reg g st o) as [[st' r] evs] eqn:E. simpl.
+  apply IH; [eapply inv_step; eauto | eapply inv2_step; eauto].
+Qed.
+Lemma inv2_init reg r : Inv2 reg (init_state r).
+Proof. intros s []. Qed.
+
+(* a successful commit publishes exactly: the previous running configuration with the session's Sets
+   replayed on it in the order they were made *)
+Lemma commit_publishes_replay reg g st id f st' evs :
+  Inv st -> Inv2 reg st -> do_commit Repaired reg g st id f = (st', ROk, evs) ->
+  exists s, find_session (sessions (expire st)) id = Some s /\
+            running st' = replay reg (running st) (s_changes s).
+Proof.
+  intros HI H2 H. apply commit_repaired_cases in H as [[E _]|[_ [[s [Ef [_ [Hr _]]]] _]]]; [congruence|].
+  exists s. split; auto. rewrite Hr. apply (inv2_expire reg) in H2. apply H2.
+  unfold find_session in Ef. apply find_some in Ef. tauto.
+Qed.
